@@ -36,6 +36,7 @@ MATCH_METHODS = ["match_EOF", "match_Empty", "match_Comment", "match_TagLine", "
 _tl = threading.local()
 _installed = False
 _originals = []
+missing = []                       # hooks that could not be installed (method no longer exists)
 calls = collections.Counter()      # wrapper name -> number of calls (process wide; "was the hook reached?")
 _calls_lock = threading.Lock()
 
@@ -98,7 +99,10 @@ class _BuilderProxy:
 
     def build(self, token):
         log = self._log
-        line = "EOF" if token.eof() else token.location["line"]
+        try:
+            line = "EOF" if token.eof() else token.location["line"]
+        except Exception:
+            line = None
         kind = getattr(token, "matched_type", None)
         log.events.append(("build", kind, line))
         log.builds.append((line, kind))
@@ -130,7 +134,12 @@ def install():
     _installed = True
 
     def patch(cls, name, make):
-        orig = cls.__dict__[name]
+        orig = cls.__dict__.get(name)
+        if orig is None:
+            # renamed/removed by a refactoring: the monitors that need this hook observe nothing and the
+            # checks that decide with them end INCONCLUSIVE (never a violation)
+            missing.append("%s.%s" % (cls.__name__, name))
+            return
         _originals.append((cls, name, orig))
         setattr(cls, name, make(orig))
 
@@ -143,11 +152,12 @@ def install():
             _count("Parser.parse")
             log = ParseLog()
             log.source = token_scanner_or_str if isinstance(token_scanner_or_str, str) else None
-            log.stop = bool(self.stop_at_first_error)
+            log.stop = bool(getattr(self, "stop_at_first_error", False))
             prev = getattr(_tl, "log", None)
             _tl.log = log
-            real_builder = self.ast_builder
-            self.ast_builder = _BuilderProxy(real_builder, log)
+            real_builder = getattr(self, "ast_builder", None)
+            if real_builder is not None:
+                self.ast_builder = _BuilderProxy(real_builder, log)
             try:
                 res = orig(self, token_scanner_or_str, token_matcher)
                 log.outcome = ("ok", res)
@@ -156,7 +166,8 @@ def install():
                 log.outcome = ("raise", e)
                 raise
             finally:
-                self.ast_builder = real_builder
+                if real_builder is not None:
+                    self.ast_builder = real_builder
                 _tl.log = prev
                 sink.append(log)
         return parse
@@ -170,8 +181,8 @@ def install():
             _count("Parser.match_token")
             if not log.transitions and log.matcher_state_at_start is None:
                 # first step of this parse: snapshot matcher/builder/context state right after the resets
-                log.matcher_state_at_start = matcher_state(context.token_matcher)
-                log.builder_state_at_start = builder_state(self.ast_builder, context)
+                log.matcher_state_at_start = matcher_state(getattr(context, "token_matcher", None))
+                log.builder_state_at_start = builder_state(getattr(self, "ast_builder", None), context)
             b0 = log._built
             log._cur_la = []
             new = None
@@ -191,11 +202,11 @@ def install():
                 if log is None:
                     return orig(self, context, currentToken)
                 _count("Parser.lookahead")
-                q0 = len(context.token_queue)
+                q0 = len(getattr(context, "token_queue", ()))
                 r0 = len(log.reads)
                 res = orig(self, context, currentToken)
                 log._cur_la.append((which, bool(res)))
-                log.la_calls.append((which, bool(res), q0, len(context.token_queue), len(log.reads) - r0))
+                log.la_calls.append((which, bool(res), q0, len(getattr(context, "token_queue", ())), len(log.reads) - r0))
                 return res
             return lookahead
         return mk
@@ -218,7 +229,7 @@ def install():
             if log is None:
                 return orig(self, context)
             _count("Parser.read_token")
-            q = context.token_queue
+            q = getattr(context, "token_queue", None)
             head = q[0] if q else None
             tok = orig(self, context)
             if head is not None:
@@ -236,7 +247,10 @@ def install():
             log = getattr(_tl, "log", None)
             if log is not None:
                 _count("TokenScanner.read")
-                log.reads.append((id(self), tok.location.get("line"), tok.eof()))
+                try:
+                    log.reads.append((id(self), tok.location.get("line"), tok.eof()))
+                except Exception:
+                    pass
             return tok
         return read
     patch(TokenScanner, "read", mk_read)
@@ -246,7 +260,8 @@ def install():
             orig(self, path_or_str)
             log = getattr(_tl, "log", None)
             if log is not None:
-                log.scanner_kind = "string" if isinstance(self.io, io.StringIO) else "file"
+                src_io = getattr(self, "io", None)
+                log.scanner_kind = ("string" if isinstance(src_io, io.StringIO) else "file") if src_io is not None else None
         return __init__
     patch(TokenScanner, "__init__", mk_scanner_init)
 
@@ -263,15 +278,15 @@ def install():
                 except Exception:
                     line = None
                 log.match_calls[line] += 1
-                sep0 = self._active_doc_string_separator
+                sep0 = getattr(self, "_active_doc_string_separator", None)
                 if sep0 is None:
                     return orig(self, token)
-                ind0 = self._indent_to_remove
+                ind0 = getattr(self, "_indent_to_remove", None)
                 res = orig(self, token)
                 # doc-string opacity (C13): while a delimiter is active only the separator test may
                 # change matcher state, and only DocStringSeparator/Other/EOF may succeed
-                sep1 = self._active_doc_string_separator
-                ind1 = self._indent_to_remove
+                sep1 = getattr(self, "_active_doc_string_separator", None)
+                ind1 = getattr(self, "_indent_to_remove", None)
                 if name != "match_DocStringSeparator" and (sep1 != sep0 or ind1 != ind0):
                     log.opaque.append(("state-changed", name, line, sep0, sep1, ind0, ind1))
                 log.opaque.append(("call", name, line, bool(res)))
@@ -324,6 +339,8 @@ def uninstall():
 
 def matcher_state(m):
     """Observable per-document state of a TokenMatcher."""
+    if m is None:
+        return None
     from gherkin.dialect import DIALECTS
     d = {
         "dialect_name": getattr(m, "dialect_name", None),
@@ -340,13 +357,13 @@ def matcher_state(m):
 
 def builder_state(b, context):
     real = getattr(b, "_real", b)
-    st = {"queue": len(context.token_queue), "errors": len(context.errors)}
+    st = {"queue": len(getattr(context, "token_queue", ())), "errors": len(getattr(context, "errors", ()))}
     stack = getattr(real, "stack", None)
     if stack is not None:
         # Parser.parse has already sent start_rule('GherkinDocument') when the first token is matched
-        st["stack"] = [n.rule_type for n in stack]
-        st["items"] = [sum(len(v) for v in n._sub_items.values()) for n in stack]
-        st["comments"] = len(real.comments)
+        st["stack"] = [getattr(n, "rule_type", None) for n in stack]
+        st["items"] = [sum(len(v) for v in getattr(n, "_sub_items", {}).values()) for n in stack]
+        st["comments"] = len(getattr(real, "comments", ()))
     return st
 
 
